@@ -39,7 +39,21 @@ def silent(name, *edits, note=''):
 
 def apply_edits(sources, edits):
     out = dict(sources)
+    import re as _re
     for e in edits:
+        if e[0] == 're':
+            _, relpath, pat, repl = e
+            if relpath not in out:
+                return None, 'file %s not in tree' % relpath
+            new_src, n = _re.subn(pat, repl, out[relpath])
+            if n == 0:
+                return None, 'anchor pattern not found in %s: %r' % (relpath, pat)
+            out[relpath] = new_src
+            try:
+                compile(new_src, relpath, 'exec', dont_inherit=True)
+            except SyntaxError as ex:
+                return None, 'edited %s does not compile: %s' % (relpath, ex)
+            continue
         relpath, old, new = e[0], e[1], e[2]
         count = e[3] if len(e) > 3 else 1
         if relpath not in out:
